@@ -6,7 +6,9 @@ splitter does with them; the facts themselves are assumptions about CPython's `r
 
   R1  marks are non-empty, inside the text, in increasing order and do not overlap;
   R2  every mark is one of the single characters { } " , = newline, or starts with '@';
-  R4  an '@' mark is directly followed by a '{' mark (start == its end), its text has the length of its extent.
+  R4  an '@' mark is directly followed by a '{' mark (start == its end), its text has the length of its extent;
+  R5  every newline character of the text is a newline mark (not an axiom of the proofs, but the link between "the
+      number of newline marks consumed", which the proofs speak about, and "the line", which C03 speaks about).
 
 A deviation means the proofs of C01-C04 do not apply to this tree (reported as UNDECIDED by check.py, never as a
 violation of a property; the bounded property checks decide on their own)."""
@@ -14,9 +16,11 @@ import itertools
 import re
 
 ALPHABET = ["{", "}", '"', ",", "=", "\n", "@", "a", " ", "\\", "\t", "_"]
-RULE = ("texts over the splitter's character classes " + repr("".join(ALPHABET)) + ": all up to a length bound, then random longer ones; "
-        "for each, the marks re.finditer yields for the pattern captured from Splitter.split are compared with R1, R2, R4")
-BOUND = {"quick": "all texts up to length 5 (271,452), 3,000 random texts of length 6..60", "thorough": "all texts up to length 6 (3.2M), 50,000 random texts of length 7..200"}
+WIDE = ALPHABET + ["(", ")", "[", "#", "%", "-", "1", "A", "\r", "\u00e9", "\u2028", "'"]
+RULE = ("texts over the splitter's character classes " + repr("".join(ALPHABET)) + " and a wider set " + repr("".join(WIDE[len(ALPHABET):])) + ": all up to a length bound, then random longer ones; "
+        "for each, the marks re.finditer yields for the pattern captured from Splitter.split are compared with R1, R2, R4, R5")
+BOUND = {"quick": "all texts over the 12 core characters up to length 5 (271,453), all over 24 characters up to length 3 (14,425), 6,000 random texts of length 4..60",
+         "thorough": "all texts over the 12 core characters up to length 6 (3.2M), all over 24 characters up to length 4 (346,201), 100,000 random texts of length 5..200"}
 
 
 def captured_call(text):
@@ -63,6 +67,10 @@ def check(spec):
             return {"what": "R2 (mark kinds) fails", "expected": "one of { } \" , = newline or '@...'", "observed": repr(g)}
         if i + 1 >= len(ms) or ms[i + 1].group(0) != "{" or ms[i + 1].start() != m.end():
             return {"what": "R4 ('@' mark directly followed by a '{' mark) fails", "expected": "next mark '{' at end of the '@' mark", "observed": repr((g, ms[i + 1].span() if i + 1 < len(ms) else None))}
+    nl_marks = {m.start() for m in ms if m.group(0) == "\n"}
+    for pos, ch in enumerate(bib):
+        if ch == "\n" and pos not in nl_marks:
+            return {"what": "R5 (every newline character is a newline mark) fails", "expected": "a newline mark at " + str(pos), "observed": repr([(m.group(0), m.span()) for m in ms][:6])}
     return None
 
 
@@ -74,6 +82,10 @@ def generate(tier, rng):
     for k in range(0, n + 1):
         for t in itertools.product(ALPHABET, repeat=k):
             yield "A-RE", {"text": "".join(t)}, True
-    lo, hi, cnt = (6, 60, 3000) if tier == "quick" else (7, 200, 50000)
-    for _ in range(cnt):
-        yield "A-RE", {"text": "".join(rng.choice(ALPHABET) for _ in range(rng.randint(lo, hi)))}, True
+    for k in range(1, (3 if tier == "quick" else 4) + 1):
+        for t in itertools.product(WIDE, repeat=k):
+            yield "A-RE", {"text": "".join(t)}, True
+    lo, hi, cnt = (4, 60, 6000) if tier == "quick" else (5, 200, 100000)
+    for i in range(cnt):
+        alpha = WIDE if i % 2 else ALPHABET
+        yield "A-RE", {"text": "".join(rng.choice(alpha) for _ in range(rng.randint(lo, hi)))}, True
